@@ -128,7 +128,9 @@ def run(tier, selftest=False, only=None):
             for space in ("grid", "graph"):
                 for mode in MODES:
                     for sd in range(nseeds):
-                        jobs.append((kind, space, mode, n, st, seed * 1000 + sd, _usys(kind, len(jobs))))
+                        # seeds over the whole documented range 0 .. 2^32 - 1 (the first three of every group sit at its ends)
+                        sval = [0, 2 ** 31 + seed, 2 ** 32 - 1 - seed][sd] if sd < 3 and (len(jobs) // nseeds) % 2 == 0 else seed * 1000 + sd
+                        jobs.append((kind, space, mode, n, st, sval, _usys(kind, len(jobs))))
     # sparse species over many cells: the correction loop of the redistribution keeps hitting cells whose draw was 0
     sparse_seeds = 40 if tier == "quick" else 400
     for n in (5, 6, 8):
